@@ -104,6 +104,7 @@ Definition spec_retain (p : spec) (d : N) (ids : list N) (f : N) : spec :=
   match sget p d with
   | Some x =>
       let stays := fun i => memN i ids || (fold_right N.max 0 ids <? i) in
+      if match filter stays (s_ids x) with [] => true | _ => false end then p (* the update names no checkpoint of this database: refused, nothing changes *) else
       let gone := filter (fun i => negb (stays i)) (s_ids x) in
       let p1 := sset p d (mkS (s_map x) (filter stays (s_ids x)) (s_scope x) (s_live x) (s_dir x) (s_pend x ++ gone)) in
       if f =? 1 then p1 else spec_saved p1 d
@@ -237,7 +238,8 @@ Definition check_step (st : world * spec) (so : op * obs) : (world * spec) * lis
                     | ROpen x => flag (robs_eqb r (model_read w' x keys)) 1
                     end
                 | ORead d, Some r => match get_db w' d with Some x => flag (robs_eqb r (model_read w' x keys)) 1 | None => [1] end
-                | ORetain _ _, Some _ => [1]
+                | ORetain d ids, Some r => flag ((r_outcome r =? 3) && retain_empty w d ids) 1
+                | ORetain d ids, None => flag (negb (retain_empty w d ids)) 1
                 | ORetainF d ids f, Some r => flag ((r_outcome r =? 1) && negb (retain_ok w d ids f)) 1
                 | ORetainF d ids f, None => flag (retain_ok w d ids f) 1
                 | _, _ => [] end in
@@ -260,7 +262,12 @@ Definition check_step (st : world * spec) (so : op * obs) : (world * spec) * lis
                                       | Some q => flag (negb (mem_name (snd q) (o_files ob))) 102
                                       | None => [] end) (p_dropped p')
                | _ => [] end in
-  let s_during := match o_during ob with [] => [] | _ => [104] end in
+  (* [o_during] holds (id, 9, 0) for every completed handle that had a missing file while a slow neighbour had not answered;
+     only the retained ones matter, and the D11 class is left to codes 110/111 *)
+  let s_during := flag (negb (existsb (fun n => let id := fst (fst n) in
+                                         completed p id && retained p id &&
+                                         negb (existsb (fun h => (h_id h =? id) && subset_names (h_missing h) (map fst (p_d11 p'))) (o_handles ob)))
+                                      (o_during ob))) 104 in
   let s_restore := match o, o_read ob with
                    | ORestore _ id _ ow _, Some r =>
                        if completed p id && retained p id then
